@@ -2,7 +2,7 @@
 import struct
 import z3
 
-from .values import (RID_BITS, IDX_BITS, LIT_BASE, FRESH_BASE, MAXLEN, Unsupported, bv, idx, rid, SliceV, ArrV, StructV,
+from .values import (RID_BITS, IDX_BITS, LIT_BASE, FRESH_BASE, ABSTRACT_BASE, MAXLEN, Unsupported, bv, idx, rid, SliceV, ArrV, StructV,
                      PtrV, IfaceV, FuncV, OpaqueV, TupleV, is_scalar_type, scalar_sort, sort_key, leaves, flatten,
                      unflatten, ite_value, eq_value, _byte_type, rid_flags)
 
@@ -79,6 +79,7 @@ class Obligation:
         self.text = text
         self.canary = canary
         self.inputs = None
+        self.extra = []      # facts produced while evaluating this obligation's own clause
 
 
 # ---------------------------------------------------------------- lvalues
@@ -224,12 +225,38 @@ class Frame:
         self.named_results = []
 
 
+class FactList(list):
+    """Hypotheses in program order; a formula that is already present is not added again (definitional facts about
+    heap reads are re-derived every time a clause is evaluated)."""
+
+    def __init__(self):
+        list.__init__(self)
+        self._ids = set()
+
+    def append(self, f):
+        if z3.is_true(f):
+            return
+        i = f.get_id()
+        if i in self._ids:
+            return
+        self._ids.add(i)
+        list.append(self, f)
+
+    def cut(self, n):
+        """Remove and return the facts added after position n (facts that only define symbols used by one clause)."""
+        tail = list(self[n:])
+        for f in tail:
+            self._ids.discard(f.get_id())
+        del self[n:]
+        return tail
+
+
 class Executor:
     def __init__(self, prog, cfg=None):
         self.prog = prog
         self.cfg = cfg or {}
         self.obligations = []
-        self.facts = []
+        self.facts = FactList()
         self.fp_defs = set()  # indexes of facts that only define the IEEE meaning of an FP result symbol
         self.fact_pcs = {}   # fact index -> path condition it was assumed under (for relevance pruning)
         self.n = 0
@@ -256,16 +283,19 @@ class Executor:
         """A newly allocated region / object id. It differs from every symbolic id that already exists (parameters,
         values havoc'd at a loop head, callee results): those were created before this allocation."""
         self.nfresh += 1
-        f = rid(FRESH_BASE + self.nfresh)
-        for t in self.sym_rids:
-            self.facts.append(t != f)
-        return f
+        return rid(FRESH_BASE + self.nfresh)
 
     def fresh_value(self, t, name):
+        """A symbolic value.  Every region / object id in it exists already: it is an old id, one of the ids this
+        execution has allocated so far, or an id from abstracted code (the band above ABSTRACT_BASE, which the
+        concrete allocation counter never reaches) — so it can never equal an id allocated later."""
         ls = leaves(t)
         terms = [self.fresh(name + ("." + ".".join(str(x) for x in p) if p else ""), s) for p, s in ls]
         v, _ = unflatten(t, terms)
-        self.collect_rids(v, self.sym_rids)
+        ids = []
+        self.collect_rids(v, ids)
+        for x in ids:
+            self.facts.append(z3.Or(z3.ULE(x, rid(FRESH_BASE + self.nfresh)), z3.UGE(x, rid(ABSTRACT_BASE))))
         return v
 
     def collect_rids(self, v, out):
@@ -303,8 +333,10 @@ class Executor:
     def assume(self, st, fact):
         if z3.is_true(fact):
             return
-        self.fact_pcs[len(self.facts)] = st.pc
+        n0 = len(self.facts)
         self.facts.append(zimp(st.pc, fact))
+        if len(self.facts) > n0:
+            self.fact_pcs[n0] = st.pc
 
     def oblige(self, st, kind, label, goal, ln, text="", canary=False):
         if self.spec:
@@ -329,14 +361,14 @@ class Executor:
                 fs.append(z3.Implies(v.rid == rid(0), v.cap == 0))
             else:
                 fs.append(z3.Implies(v.rid == rid(0), v.ln == 0))
-            self.assume(st, z3.And(*[f for f in fs if not z3.is_true(f)]))
+            self.facts.append(z3.And(*[f for f in fs if not z3.is_true(f)]))
         elif k == "ptr" and param:
-            self.assume(st, z3.ULT(v.oid, rid(FRESH_BASE)))
+            self.facts.append(z3.ULT(v.oid, rid(FRESH_BASE)))
         elif k == "iface":
             if param:
-                self.assume(st, z3.And(z3.ULT(v.oid, rid(FRESH_BASE)), z3.Implies(v.tag == rid(0), v.oid == rid(0))))
+                self.facts.append(z3.And(z3.ULT(v.oid, rid(FRESH_BASE)), z3.Implies(v.tag == rid(0), v.oid == rid(0))))
             else:
-                self.assume(st, z3.Implies(v.tag == rid(0), v.oid == rid(0)))
+                self.facts.append(z3.Implies(v.tag == rid(0), v.oid == rid(0)))
         elif k == "struct":
             for name, ft, _ in t.fields():
                 try:
